@@ -175,6 +175,7 @@ def c18(res):
 
 def c19(res):
     wd = workdir("C19")
+    res.models.append(prove("SolverPackingProof", wd))
     res.models.append(model_check("Solver", "Solver.cfg", wd, workers=8, timeout=3000))
     trace = os.path.join(wd, "trace.ndjson")
     if not run_recorder(res, "c19", [res.tier, trace], wd, timeout=6000):
@@ -235,6 +236,7 @@ def c04(res):
 
 def c02(res):
     wd = workdir("C02")
+    res.models.append(prove("BulkDriverProof", wd))
     for cfg in ("BulkDriver_W8.cfg", "BulkDriver_W1.cfg", "BulkDriver_W4.cfg"):
         res.models.append(model_check("BulkDriver", cfg, wd, workers=2))
     res.models.append(model_check("JitLower", "JitLower.cfg", wd, workers=4))
